@@ -507,6 +507,8 @@ fn lex_source_into_buffer<'source: 'tokens, 'tokens: 'buffer, 'buffer>(
 					{
 						iter.next();
 						location.end += 1;
+						// Leading zeros do not count towards the 128 bits.
+						let mut contains_digits = false;
 						let mut num_digits = 0;
 						let mut value = 0;
 						while let Some(&(_, y)) = iter.peek()
@@ -517,7 +519,11 @@ fn lex_source_into_buffer<'source: 'tokens, 'tokens: 'buffer, 'buffer>(
 							}
 							else if y == b'0'
 							{
-								num_digits += 1;
+								contains_digits = true;
+								if value != 0
+								{
+									num_digits += 1;
+								}
 								value <<= 1;
 
 								iter.next();
@@ -525,6 +531,7 @@ fn lex_source_into_buffer<'source: 'tokens, 'tokens: 'buffer, 'buffer>(
 							}
 							else if y == b'1'
 							{
+								contains_digits = true;
 								num_digits += 1;
 								value <<= 1;
 								value |= 0b1;
@@ -546,7 +553,7 @@ fn lex_source_into_buffer<'source: 'tokens, 'tokens: 'buffer, 'buffer>(
 						{
 							Err(LexingError::InvalidIntegerLength)
 						}
-						else if num_digits > 0
+						else if contains_digits
 						{
 							end_of_literal = location.end;
 							Ok(value)
